@@ -110,8 +110,15 @@ func Discharge(obls []*Obligation, workDir string, timeoutS, seed int, crossChec
 				}
 				return
 			}
-			for _, sp := range solvers {
-				verdict, out, dur := runSolver(sp, file, timeoutS, seed)
+			for si, sp := range solvers {
+				if o.Known && si >= 2 {
+					break // a recorded finding: do not spend the retries on it
+				}
+				tmo := timeoutS
+				if o.Known {
+					tmo = 5
+				}
+				verdict, out, dur := runSolver(sp, file, tmo, seed)
 				o.TimeS += dur
 				lastOut = out
 				if verdict == "sat" || verdict == "unsat" {
